@@ -202,6 +202,60 @@ func witnessInsideFlush(c *core.Ctx) {
 	}
 }
 
+// witnessParked: reader ‖ flusher. A query is parked right after it took a store's file snapshot; a
+// whole PrepareFlush + Flush of that store runs; the query resumes and reads the memory tables. With
+// "snapshot first, memory later" the flushed batch is in neither (not in the old snapshot, no longer in
+// the immutable table): `host like 'ab*'`, `host =~ '^ab'`, every filter at the postings, and `!=` at
+// the forward index lose series written long before the query started. `host = 'abc'` (memory first,
+// then snapshot: getOrCreateValue) is right.
+func witnessParked(c *core.Ctx) {
+	d, err := newDBT(c)
+	if err != nil {
+		c.Fail("harness-env", err.Error())
+		return
+	}
+	defer d.close()
+	d.write("cpu", map[string]string{"host": "abc", "zone": "z1"})
+	d.write("cpu", map[string]string{"host": "zz", "zone": "z1"})
+	flushAll(d)
+	parse := func(w string) stmt.Expr {
+		cond, _, ok := mustParse(c, w, nil)
+		if !ok {
+			return nil
+		}
+		return cond
+	}
+	round := 0
+	next := func() { // a fresh batch in the memory tables of both databases
+		round++
+		d.write("cpu", map[string]string{"host": fmt.Sprintf("ab%d", round), "zone": "z2"})
+		d.write("cpu", map[string]string{"host": fmt.Sprintf("zz%d", round)})
+	}
+	for _, t := range []struct{ point, where string }{
+		{"dictfind", "'host' = 'abc'"},
+		{"dictfind", "'host' = 'ab1'"},
+		{"dictscan", "'host' like 'ab*'"},
+		{"dictscan", "'host' =~ '^ab'"},
+		{"inverted", "'host' like 'ab*'"},
+		{"inverted", "'zone' = 'z2'"},
+		{"inverted", "'host' != 'abc'"},
+		{"forward", "'host' != 'abc'"},
+		{"forward", "'zone' not in ('z1')"},
+	} {
+		next()
+		cond := parse(t.where)
+		if cond == nil {
+			continue
+		}
+		if t.point == "dictfind" || t.point == "dictscan" {
+			d.queryParked(t.point, "cpu", cond, []string{"prepare-meta", "flush-meta"})
+		} else {
+			d.queryParked(t.point, "cpu", cond, []string{"prepare-index", "flush-index"})
+		}
+		d.query("cpu", cond, nil, "sql") // the same query afterwards, unparked
+	}
+}
+
 // ---------------------------------------------------------------- forward reader / merger on raw buffers
 
 // capture is a kv.Flusher + table.StreamWriter that keeps the committed values in memory.
